@@ -3,6 +3,24 @@
 import json
 
 CLAIMED = {
+    "C02": {
+        "technique": "Lean 4 theorems about the writer/escape/root-attribute models (all strings, all elements) + byte-exact writer correspondence; expat oracle for the composition",
+        "text": "Machine-checked proof (Lean 4), for all strings, elements and configurations, of each ingredient of well-formedness in the model of OutputList::write_to: escaping is exact (unescape (escape s) = s) and safe (no < > quote characters survive) — escaping_exact, escaping_safe, attr_value_has_no_quote; generated comments never contain '--' nor end in '-' (comments_delimited); every emitted element has unique attribute names, with class written once (attributes_unique, attrmap_insert_unique, over the AttrMap lemma library); the root always carries a namespace and a version and keeps the author's attributes (root_namespace_version). The writer model is compared byte for byte with the implementation on random event lists over an XML-hostile alphabet (hook write_events). The composition 'an independent parser accepts every successful output' is decided per document by the expat oracle over documents that route hostile strings into every sink under random configurations.",
+        "note": "Partial as a proof: there is no single theorem wf(write(events)) against an independent grammar, and balancedness of the generated event list is established by the oracle, not yet by induction over the control skeleton. quick-xml's own serialisation is modelled, not verified. Five genuine defects were repaired; one is open (unclosed input element gives unbalanced output — the repair contradicts the pinned test-suite, see KNOWN_FINDINGS.txt).",
+        "design_ref": "DESIGN.md §7 C02",
+    },
+    "C03": {
+        "technique": "Lean 4 proof that the tokenizer partitions its input (read-then-write = identity) + control-skeleton theorems that real SVG is not processed; reader and writer correspondence streams",
+        "text": "Machine-checked proof (Lean 4): the reader model cuts any accepted input into consecutive slices and pass-through writes them back, so the output equals the input byte for byte — hence the same infoset — for every document (passthrough_identity, tokens_partition_input, by induction over the input); the implementation's writer departs from the source slice only by blanks inside end tags and after DOCTYPE (writer_form); in the control skeleton a document whose first element is <svg xmlns=SVG> returns its input events with no evaluation, and an embedded namespaced <svg> subtree is handed on untouched (real_svg_untouched, nested_real_svg_untouched, isRealSvg_first_element). The tokenizer model is compared event by event with quick-xml (hook read_events) and the model's read-then-write byte for byte with transform_str on generated well-formed SVG with references, CDATA, comments, PIs, doctype, odd quoting and spacing, under random configurations; expat infoset equality is the oracle.",
+        "note": "quick-xml's tokenizer is third-party code: modelled (Svgdx/Xml/Raw.lean) and tied by correspondence, not verified. A genuine defect (re-escaping, blank trimming, class de-duplication on pass-through) was repaired first.",
+        "design_ref": "DESIGN.md §7 C03",
+    },
+    "C05": {
+        "technique": "Lean 4 theorems: written root is a real-SVG root; real SVG is not processed; read-then-write reproduces writer output; second-pass correspondence",
+        "text": "Machine-checked proof (Lean 4) of the three links of the fixed-point argument: (i) for every author attribute set without a namespace, every extent and configuration, the root written by write_root_svg has xmlns = the SVG namespace (output_root_is_real_svg; author attributes kept, author_namespace_kept); (ii) a real-SVG document is handed through unprocessed under any configuration (second_pass_not_processed); (iii) read-then-write reproduces every document whose end tags and DOCTYPE are spelled the way the writer spells them (second_pass_identity_partial, from the tokenizer partition theorem). T_c2(T_c1(x)) = T_c1(x) is then checked byte for byte on generated documents under random configuration pairs, and the second pass is compared with the model's read-then-write.",
+        "note": "Partial as a proof: the byte-level link between (i) and (ii) — that reading the written root tag yields the attribute just written — rests on the writer/reader correspondence streams, and an author-supplied non-SVG xmlns on the root is outside the guarantee (documented in the theorem). use_local_styles is excluded (random id).",
+        "design_ref": "DESIGN.md §7 C05",
+    },
     "C15": {
         "technique": "Lean 4 mutual induction over the control-skeleton model (state restoration for every outcome) + document-level correspondence with end-of-run probe",
         "text": "Machine-checked proof (Lean 4) over a model of generate_events / process_tags / g / symbol / loop / for / if / var / specs / container, parametric in the expression evaluator and for all fuel: every element, whatever its outcome (success, any error, limit error), leaves every enclosing variable scope, the element stack, the depth counter and the in-specs flag exactly as it found them (Proofs/CtlInv.allInv, a 14-function mutual induction; scopes_restored); a group restores the entire scope stack, so values set inside are discarded when it closes and a failed-then-retried group leaves nothing behind (group_restores_bindings); lookup is innermost-first and element attributes shadow for descendants only (lookup_innermost, element_attrs_shadow); all attributes of one <var> are evaluated in the pre-state (var_parallel_assignment) and only touch the innermost scope (var_touches_innermost_only). The model is tied to the code by comparing output elements and the end-of-run probe (depth, scope-stack height, element-stack height, in-specs; hook verif_probe) on generated nestings with forward references; a lexical-scoping reference interpreter is the oracle.",
